@@ -252,7 +252,7 @@ Fixpoint tls (relaxed cmt noeol eol : bool) (l : bytes) : bytes * bool :=
   | c :: t =>
     if cmt then
       match cls c with
-      | BEol => tls relaxed false true eol l      (* positionToNextEOL: continue at the EOL byte *)
+      | BEol => tls relaxed false true (eol || relaxed) t   (* positionToNextEOL stops here; next round: s[0] is this EOL *)
       | _ => tls relaxed true noeol eol t
       end
     else
@@ -271,3 +271,577 @@ Fixpoint tls (relaxed cmt noeol eol : bool) (l : bytes) : bytes * bool :=
       | BOther => (l, eol)
       end
   end.
+
+Definition trim_left_space (relaxed : bool) (l : bytes) : bytes * bool := tls relaxed false true false l.
+Definition trim (l : bytes) : bytes := fst (trim_left_space false l).
+
+(* ------------------------------------------------------------------ tokens *)
+
+(* parse.go:positionToNextWhitespaceOrChar(s, chars) with chars non-empty:
+   Some (s[:i], s[i:]) for the first i whose rune is in chars, white space or 0; None for -1. *)
+Fixpoint tok_split (chars : N -> bool) (l : bytes) : option (bytes * bytes) :=
+  match l with
+  | [] => None
+  | c :: t =>
+    if (c =? 0) || chars c || negb (Nat.eqb (uspace_len l) 0) then Some ([], l)
+    else match tok_split chars t with Some (p, s) => Some (c :: p, s) | None => None end
+  end.
+
+Definition in_set (set : bytes) (c : N) : bool := existsb (N.eqb c) set.
+Definition set_name : bytes := [47; 60; 62; 40; 41; 91; 93; 37].   (* "/<>()[]%" parseName *)
+Definition set_num1 : bytes := [47; 60; 40; 91; 93; 62; 37].       (* "/<([]>%" startParseNumericOrIndRef *)
+Definition set_num2 : bytes := [47; 60; 40; 91; 93; 62].           (* "/<([]>"  parseNumericOrIndRef *)
+Definition delimiter (c : N) : bool := in_set [60; 62; 91; 93; 40; 41; 47] c.  (* parse.go:delimiter "<>[]()/" *)
+
+(* parse.go:parseName on a line that starts with '/': (decoded name or None on error, new *line).
+   The line is advanced before decoding, so it is advanced on a decode error too. *)
+Definition parse_name (l : bytes) : option bytes * bytes :=
+  match l with
+  | c :: t =>
+    if c =? 47 then
+      match tok_split (in_set set_name) t with
+      | None => (decode_name t, [])
+      | Some (p, s) => (decode_name p, s)
+      end
+    else (None, l)
+  | [] => (None, l)
+  end.
+
+(* parse.go:balancedParenthesesPrefix, started behind the opening '(' with j = 1:
+   Some (content, rest behind the closing ')') *)
+Fixpoint bal_scan (j : N) (esc : bool) (l : bytes) : option (bytes * bytes) :=
+  match l with
+  | [] => None
+  | c :: t =>
+    let keep r := match r with Some (p, s) => Some (c :: p, s) | None => None end in
+    if esc then keep (bal_scan j false t)
+    else if c =? 92 then keep (bal_scan j true t)
+    else
+      let j' := if c =? 40 then j + 1 else if c =? 41 then j - 1 else j in
+      if j' =? 0 then Some ([], t) else keep (bal_scan j' false t)
+  end.
+
+(* a literal string content that balancedParenthesesPrefix closes exactly at its end *)
+Fixpoint bal_wf (j : N) (esc : bool) (l : bytes) : bool :=
+  match l with
+  | [] => negb esc && (j =? 1)
+  | c :: t =>
+    if esc then bal_wf j false t
+    else if c =? 92 then bal_wf j true t
+    else
+      let j' := if c =? 40 then j + 1 else if c =? 41 then j - 1 else j in
+      negb (j' =? 0) && bal_wf j' false t
+  end.
+
+(* hexString: None = junk *)
+Definition is_hexws (c : N) : bool := (c =? 32) || (c =? 9) || (c =? 10) || (c =? 12) || (c =? 13).
+Definition hex_upper (c : N) : option N :=
+  if (48 <=? c) && (c <=? 57) then Some c
+  else if (65 <=? c) && (c <=? 70) then Some c
+  else if (97 <=? c) && (c <=? 102) then Some (c - 32)
+  else None.
+(* odd = number of digits written since the last padding is odd *)
+Fixpoint hex_string (odd : bool) (l : bytes) : option bytes :=
+  match l with
+  | [] => Some (if odd then [48] else [])
+  | c :: t =>
+    if is_hexws c then
+      match hex_string false t with Some r => Some (if odd then 48 :: r else r) | None => None end
+    else match hex_upper c with
+         | Some u => match hex_string (negb odd) t with Some r => Some (u :: r) | None => None end
+         | None => None
+         end
+  end.
+
+Fixpoint split_at (x : N) (l : bytes) : option (bytes * bytes) :=
+  match l with
+  | [] => None
+  | c :: t => if c =? x then Some ([], t)
+              else match split_at x t with Some (p, s) => Some (c :: p, s) | None => None end
+  end.
+
+(* ------------------------------------------------------------------ numbers *)
+
+Inductive ares := AOk (z : Z) | ASyntax | ARange.
+
+Definition is_digit (c : N) : bool := (48 <=? c) && (c <=? 57).
+Definition max_u64 : Z := 18446744073709551615.
+Definition cutoff_u64 : Z := 1844674407370955162.   (* maxUint64/10 + 1 *)
+
+(* strconv.ParseUint(s, 10, 64) main loop *)
+Fixpoint atoi_digits (acc : Z) (l : bytes) : ares :=
+  match l with
+  | [] => AOk acc
+  | c :: t =>
+    if is_digit c then
+      if (cutoff_u64 <=? acc)%Z then ARange
+      else let n1 := (acc * 10 + Z.of_N (c - 48))%Z in
+           if (max_u64 <? n1)%Z then ARange else atoi_digits n1 t
+    else ASyntax
+  end.
+
+(* strconv.Atoi on a 64-bit platform *)
+Definition atoi (s : bytes) : ares :=
+  match s with
+  | [] => ASyntax
+  | c :: t =>
+    let neg := c =? 45 in
+    let body := if (c =? 43) || (c =? 45) then t else s in
+    match body with
+    | [] => ASyntax
+    | _ =>
+      match atoi_digits 0 body with
+      | AOk un =>
+        if neg then (if (9223372036854775808 <? un)%Z then ARange else AOk (- un))
+        else (if (9223372036854775807 <? un)%Z then ARange else AOk un)
+      | e => e
+      end
+    end
+  end.
+
+(* startParseNumericOrIndRef: drop a "0" / "0.000" prefix in front of a sign *)
+Fixpoint drop_zeros (l : bytes) : bytes :=
+  match l with c :: t => if c =? 48 then drop_zeros t else l | [] => l end.
+Definition is_sign (c : N) : bool := (c =? 43) || (c =? 45).
+Definition zero_hack (str : bytes) : bytes :=
+  match str with
+  | c0 :: c :: t =>
+    if negb (c0 =? 48) then str
+    else if is_sign c then c :: t
+    else if c =? 46 then
+      match drop_zeros t with
+      | d :: t' => if is_sign d then d :: t' else str
+      | [] => str
+      end
+    else str
+  | _ => str
+  end.
+
+(* strings.Replace(s, [a], [b], 1) for one byte a *)
+Fixpoint replace1 (a b : N) (l : bytes) : bytes :=
+  match l with [] => [] | c :: t => if c =? a then b :: t else c :: replace1 a b t end.
+(* strings.Replace(s, ".-", ".", 1) *)
+Fixpoint replace_dotminus (l : bytes) : bytes :=
+  match l with
+  | c :: t => match t with
+              | d :: t2 => if (c =? 46) && (d =? 45) then 46 :: t2 else c :: replace_dotminus t
+              | [] => l
+              end
+  | [] => []
+  end.
+
+(* strconv.readFloat, base 10: digits and '_' *)
+Fixpoint span_du (l : bytes) : (bytes * bool) * bytes :=       (* (digits, saw '_'), rest *)
+  match l with
+  | c :: t =>
+    if is_digit c then let '(ds, us, r) := span_du t in (c :: ds, us, r)
+    else if c =? 95 then let '(ds, _, r) := span_du t in (ds, true, r)
+    else ([], false, l)
+  | [] => ([], false, [])
+  end.
+Definition dval (acc : N) (l : bytes) : N := fold_left (fun a c => a * 10 + (c - 48)) l acc.
+(* exponent accumulation: if e < 10000 { e = e*10 + d } *)
+Definition eval_sat (l : bytes) : Z :=
+  fold_left (fun e c => if (e <? 10000)%Z then (e * 10 + Z.of_N (c - 48))%Z else e) l 0%Z.
+
+(* strconv.underscoreOK on a decimal literal without base prefix *)
+Fixpoint us_ok (saw : N) (l : bytes) : bool :=     (* saw: 94 '^', 48 '0', 95 '_', 33 '!' *)
+  match l with
+  | [] => negb (saw =? 95)
+  | c :: t =>
+    if is_digit c then us_ok 48 t
+    else if c =? 95 then (saw =? 48) && us_ok 95 t
+    else if saw =? 95 then false
+    else us_ok 33 t
+  end.
+Definition underscore_ok (s : bytes) : bool :=
+  let s := match s with c :: t => if is_sign c then t else s | [] => s end in
+  match s with
+  | 48 :: c :: _ => if (c =? 98) || (c =? 66) || (c =? 111) || (c =? 79) || (c =? 120) || (c =? 88)
+                    then false (* base prefix: not modelled *) else us_ok 94 s
+  | _ => us_ok 94 s
+  end.
+
+(* 2^1024 - 2^970: decimals at or above it round to +Inf (ParseFloat: ErrRange) *)
+Definition f64_over : Z := (2 ^ 1024 - 2 ^ 970)%Z.
+Definition overflows (m : N) (nd : Z) (e : Z) : bool :=     (* nd = number of digits of the mantissa text *)
+  if m =? 0 then false
+  else if (0 <=? e)%Z then
+    if (400 <? e)%Z then true else (f64_over <=? Z.of_N m * 10 ^ e)%Z
+  else if (nd <? - e)%Z then false
+  else (f64_over * 10 ^ (- e) <=? Z.of_N m)%Z.
+
+(* strconv.ParseFloat(s, 64) restricted to decimal syntax: Some (neg, mantissa, exp10) / None = error.
+   Not modelled (None): hex floats "0x..p..", "inf", "infinity", "nan". *)
+Definition parse_float (s : bytes) : option (bool * N * Z) :=
+  match s with
+  | [] => None
+  | c0 :: t0 =>
+    let neg := c0 =? 45 in
+    let body := if is_sign c0 then t0 else s in
+    let '(d1, us1, r1) := span_du body in
+    let '(d2, us2, r2, dot) :=
+      match r1 with
+      | cd :: t => if cd =? 46 then let '(d2, us2, r2) := span_du t in (d2, us2, r2, true)
+                   else ([], false, r1, false)
+      | [] => ([], false, r1, false)
+      end in
+    match d1 ++ d2 with
+    | [] => None                                        (* !sawdigits *)
+    | ds =>
+      let m := dval 0 ds in
+      let fin (e : Z) :=
+        if (us1 || us2) && negb (underscore_ok s) then None
+        else let e10 := (e - Z.of_nat (length d2))%Z in
+             if overflows m (Z.of_nat (length ds)) e10 then None else Some (neg, m, e10) in
+      match r2 with
+      | [] => fin 0%Z
+      | ce :: te =>
+        if (ce =? 101) || (ce =? 69) then
+          match te with
+          | [] => None
+          | sg :: te' =>
+            let eneg := sg =? 45 in
+            let edig := if is_sign sg then te' else te in
+            match edig with
+            | [] => None
+            | d0 :: _ =>
+              if is_digit d0 then
+                let '(de, use, re) := span_du edig in
+                match re with
+                | [] =>
+                  if (us1 || us2 || use) && negb (underscore_ok s) then None
+                  else
+                    let e := eval_sat de in
+                    let e10 := ((if eneg then - e else e) - Z.of_nat (length d2))%Z in
+                    if overflows m (Z.of_nat (length ds)) e10 then None else Some (neg, m, e10)
+                | _ => None
+                end
+              else None
+            end
+          end
+        else None
+      end
+    end
+  end.
+
+(* parse.go:parseFloat : None = (nil, nil) "skip junk" *)
+Definition parse_float_tok (s : bytes) : option (bool * N * Z) :=
+  let s1 := replace1 44 46 s in
+  match parse_float s1 with
+  | Some r => Some r
+  | None => parse_float (replace_dotminus s1)
+  end.
+
+(* the look-ahead of parseNumericOrIndRef + parseIndRef behind the first integer;
+   s = l[i1:] (starts with a white-space or '%' byte).  Some (generation, line behind 'R'). *)
+Definition lookahead (s : bytes) : option (Z * bytes) :=
+  match trim s with
+  | [] => None
+  | l =>
+    match tok_split (in_set set_num2) l with
+    | None => None                                   (* i2 = -1 *)
+    | Some ([], _) => None                           (* i2 = 0 *)
+    | Some (p2, s2) =>
+      match s2 with
+      | [] => None
+      | c2 :: _ =>
+        if delimiter c2 then None
+        else match atoi p2 with
+             | AOk g => match trim s2 with
+                        | cr :: t => if cr =? 82 then Some (g, t) else None
+                        | [] => None
+                        end
+             | _ => None
+             end
+      end
+    end
+  end.
+
+Definition has_dot_comma (s : bytes) : bool := existsb (fun c => (c =? 46) || (c =? 44)) s.
+
+(* parse.go:parseNumericOrIndRef on a non-empty line: (object, new line) *)
+Definition parse_numeric (l : bytes) : obj * bytes :=
+  let sp := tok_split (in_set set_num1) l in
+  let '(str, l1, pos) :=
+    match sp with
+    | Some (c :: p, s) => (c :: p, s, true)          (* i1 > 0 *)
+    | _ => (l, [], false)                            (* i1 <= 0: str = l, l1 = "" *)
+    end in
+  let str := zero_hack str in
+  match atoi str with
+  | ARange =>
+    if negb (has_dot_comma str) then (OInt 0, l1)    (* #407 *)
+    else match parse_float_tok str with Some (n, m, e) => (OReal n m e, l1) | None => (ONull, l1) end
+  | ASyntax =>
+    match parse_float_tok str with Some (n, m, e) => (OReal n m e, l1) | None => (ONull, l1) end
+  | AOk i =>
+    if negb pos then (OInt i, l1)
+    else match l1 with
+         | [] => (OInt i, l1)
+         | c1 :: _ =>
+           if delimiter c1 then (OInt i, l1)
+           else match lookahead l1 with
+                | Some (g, r) => (ORef i g, r)
+                | None => (OInt i, l1)
+                end
+         end
+  end.
+
+(* parse.go:parseBooleanOrNull (strings.ToLower on ASCII letters) *)
+Definition lower (c : N) : N := if (65 <=? c) && (c <=? 90) then c + 32 else c.
+Fixpoint ci_prefix (pat l : bytes) : option bytes :=
+  match pat with
+  | [] => Some l
+  | p :: pt => match l with
+               | c :: t => if lower c =? p then ci_prefix pt t else None
+               | [] => None
+               end
+  end.
+Definition bool_or_null (l : bytes) : option (obj * bytes) :=
+  match ci_prefix s_null l with
+  | Some r => Some (ONull, r)
+  | None =>
+    match ci_prefix s_true l with
+    | Some r => Some (OBool true, r)
+    | None => match ci_prefix s_false l with
+              | Some r => Some (OBool false, r)
+              | None => None
+              end
+    end
+  end.
+
+(* ------------------------------------------------------------------ the parser *)
+
+Inductive perr := EDepth | EOther.
+Inductive pres := POk (o : obj) (rest : bytes) | PErr (e : perr) | POOF.
+
+Fixpoint bytes_eqb (a b : bytes) : bool :=
+  match a, b with
+  | [], [] => true
+  | x :: a', y :: b' => (x =? y) && bytes_eqb a' b'
+  | _, _ => false
+  end.
+
+(* parse.go:insertKey on the key-ordered view of the map: replace or add *)
+Fixpoint dict_insert (k : bytes) (v : obj) (d : list (bytes * obj)) : list (bytes * obj) :=
+  match d with
+  | [] => [(k, v)]
+  | (k', v') :: t => if bytes_eqb k k' then (k, v) :: t else (k', v') :: dict_insert k v t
+  end.
+
+Definition is_null (o : obj) : bool := match o with ONull => true | _ => false end.
+
+(* recursion.go:CheckRecursionDepth: maxDepth <= 0 means the default 100 *)
+Definition eff_depth (maxd : Z) : Z := if (maxd <=? 0)%Z then 100%Z else maxd.
+
+Definition parse_strlit (l : bytes) : pres :=     (* l starts with '(' *)
+  match l with
+  | _ :: (_ :: _) as t =>
+    match bal_scan 1 false t with
+    | Some (p, s) => POk (OStr p) s
+    | None => PErr EOther
+    end
+  | _ => PErr EOther
+  end.
+
+Definition parse_hexlit (l : bytes) : pres :=     (* l starts with '<', len >= 2 *)
+  match l with
+  | _ :: t =>
+    match split_at 62 t with
+    | None => PErr EOther
+    | Some (p, s) =>
+      match trim_space p with
+      | [] => POk (OHex []) s
+      | q => match hex_string false q with
+             | Some h => POk (OHex h) s
+             | None => POk ONull s                 (* "Skip junk": (nil, nil) *)
+             end
+      end
+    end
+  | [] => PErr EOther
+  end.
+
+Fixpoint parse_obj (fuel : nat) (relaxed : bool) (maxd level : Z) (l : bytes) {struct fuel} : pres :=
+  match fuel with
+  | O => POOF
+  | S f =>
+    match l with
+    | [] => PErr EOther
+    | _ =>
+      if (eff_depth maxd <? level)%Z then PErr EDepth else
+      match trim l with
+      | [] => PErr EOther
+      | (c :: t) as l1 =>
+        if c =? 91 then                                              (* '[' parseArray *)
+          match t with
+          | [] => PErr EOther
+          | _ => match trim t with
+                 | [] => PErr EOther
+                 | l2 => parse_arr f relaxed maxd level l2 []
+                 end
+          end
+        else if c =? 47 then                                         (* '/' parseName *)
+          match parse_name l1 with
+          | (Some n, r) => POk (OName n) r
+          | (None, _) => PErr EOther
+          end
+        else if c =? 60 then                                         (* '<' parseHexLiteralOrDict *)
+          match t with
+          | [] => PErr EOther
+          | d :: t2 =>
+            if d =? 60 then                                          (* parseDict *)
+              match t2 with
+              | _ :: _ :: _ =>
+                match trim t2 with
+                | [] => PErr EOther
+                | l2 => parse_dict f relaxed maxd level l2 []
+                end
+              | _ => PErr EOther                                     (* len(l) < 4 *)
+              end
+            else parse_hexlit l1
+          end
+        else if c =? 40 then parse_strlit l1                         (* '(' *)
+        else match bool_or_null l1 with
+             | Some (v, r) => POk v r
+             | None => let '(v, r) := parse_numeric l1 in POk v r
+             end
+      end
+    end
+  end
+(* the for loop of parseArray; l is non-empty and trimmed; acc = entries so far, reversed *)
+with parse_arr (fuel : nat) (relaxed : bool) (maxd level : Z) (l : bytes) (acc : list obj) {struct fuel} : pres :=
+  match fuel with
+  | O => POOF
+  | S f =>
+    match l with
+    | [] => PErr EOther                      (* not reached: callers pass a non-empty line *)
+    | c :: t =>
+      if c =? 93 then POk (OArr (rev acc)) t else
+      match parse_obj f relaxed maxd (level + 1) l with
+      | POk o l' =>
+        match l' with
+        | [] => PErr EOther
+        | _ => match trim l' with
+               | [] => PErr EOther
+               | l'' => parse_arr f relaxed maxd level l'' (o :: acc)
+               end
+        end
+      | e => e
+      end
+    end
+  end
+(* the for loop of processDictKeys + the end of parseDict; d = entries so far *)
+with parse_dict (fuel : nat) (relaxed : bool) (maxd level : Z) (l : bytes) (d : list (bytes * obj)) {struct fuel} : pres :=
+  match fuel with
+  | O => POOF
+  | S f =>
+    match l with
+    | [] => POk (ODict d) []
+    | c :: t =>
+      if (c =? 62) && (match t with c' :: _ => c' =? 62 | [] => false end) then POk (ODict d) (tl t) else
+      match parse_name l with
+      | (None, l1) =>
+        if relaxed then                                              (* skip junk, continue *)
+          parse_dict f relaxed maxd level (fst (trim_left_space relaxed (tl l1))) d
+        else PErr EOther
+      | (Some k, l1) =>
+        let '(l2, eol) := trim_left_space relaxed l1 in
+        match l2 with
+        | [] => PErr EOther
+        | _ =>
+          let vres := if eol then POk (OStr []) l2 else parse_obj f relaxed maxd (level + 1) l2 in
+          match vres with
+          | POk v l3 =>
+            let d' := if is_null v then d else dict_insert k v d in
+            match l3 with
+            | _ :: _ :: _ =>
+              match trim l3 with
+              | [] => PErr EOther
+              | l4 => parse_dict f relaxed maxd level l4 d'
+              end
+            | _ => PErr EOther
+            end
+          | e => e
+          end
+        end
+      end
+    end
+  end.
+
+(* parse.go:ParseObjectContext: strict, then relaxed unless the depth limit was hit *)
+Definition parse_fuel (l : bytes) : nat := (2 * length l + 2)%nat.
+Definition parse_top (maxd level : Z) (l : bytes) : pres :=
+  match l with
+  | [] => PErr EOther
+  | _ =>
+    match parse_obj (parse_fuel l) false maxd level l with
+    | PErr EOther => parse_obj (parse_fuel l) true maxd level l
+    | r => r
+    end
+  end.
+
+(* ------------------------------------------------------------------ the property's vocabulary *)
+
+Definition in_i64 (z : Z) : bool := (-9223372036854775808 <=? z)%Z && (z <=? 9223372036854775807)%Z.
+Definition name_wf (s : bytes) : bool := forallb (fun c => (0 <? c) && (c <? 256)) s.
+Definition is_hex (c : N) : bool := match hex_upper c with Some _ => true | None => false end.
+
+Fixpoint nodup_keys (d : list (bytes * obj)) : bool :=
+  match d with
+  | [] => true
+  | (k, _) :: t => negb (existsb (fun kv => bytes_eqb k (fst kv)) t) && nodup_keys t
+  end.
+
+(* the objects the property quantifies over *)
+Fixpoint wf (o : obj) : bool :=
+  match o with
+  | ONull | OBool _ => true
+  | OInt z => in_i64 z
+  | OReal _ m e => (e =? -12)%Z && (Z.of_N m <? f64_over * 10 ^ 12)%Z   (* finite: below the float64 overflow threshold *)
+  | OName s => name_wf s
+  | OStr s => bal_wf 1 false s
+  | OHex s => forallb is_hex s
+  | ORef a b => in_i64 a && in_i64 b
+  | OArr l => forallb wf l
+  | ODict d => forallb (fun kv => name_wf (fst kv) && wf (snd kv)) d && nodup_keys d
+  end.
+
+Fixpoint depth (o : obj) : Z :=
+  match o with
+  | OArr l => 1 + fold_right (fun x a => Z.max (depth x) a) 0%Z l
+  | ODict d => 1 + fold_right (fun kv a => Z.max (depth (snd kv)) a) 0%Z d
+  | _ => 0%Z
+  end.
+
+(* hexString on hex digits: upper case, padded to even length *)
+Definition hex_norm (s : bytes) : bytes :=
+  map (fun c => match hex_upper c with Some u => u | None => c end) s
+  ++ (if Nat.odd (length s) then [48] else []).
+
+(* what the written object reads back as *)
+Fixpoint norm (o : obj) : obj :=
+  match o with
+  | OHex s => OHex (hex_norm s)
+  | OArr l => OArr (map norm l)
+  | ODict d => ODict (flat_map (fun kv => if is_null (snd kv) then [] else [(fst kv, norm (snd kv))]) d)
+  | _ => o
+  end.
+
+(* the empty name is written "/ ": the blank stays in the buffer *)
+Definition residue (o : obj) : bytes := match o with OName [] => [32] | _ => [] end.
+
+(* what may follow a written object in the buffer: a token end, no "int R" look-ahead *)
+Definition tok_end (rest : bytes) : bool :=
+  match rest with
+  | [] => true
+  | c :: _ => (c =? 32) || in_set set_num2 c
+  end.
+Definition no_R (rest : bytes) : bool :=
+  match trim rest with c :: _ => negb (c =? 82) | [] => true end.
+Definition no_ref (rest : bytes) : bool :=
+  match rest with
+  | [] => true
+  | c :: _ => delimiter c || match lookahead rest with None => true | Some _ => false end
+  end.
+Definition follow (rest : bytes) : bool := tok_end rest && no_ref rest && no_R rest.
